@@ -260,6 +260,17 @@ pub fn run(ctx: &Ctx, model: &mut Model, rep: &mut Report) {
             None => rep.resolved_findings.push(json!({"id": f.id, "what": f.what})),
         }
     }
+    for f in known::load(ctx, "C03").into_iter().filter(|f| f.status == "fixed") {
+        if let Some(t) = f.witness.get("text").and_then(|t| t.as_str()) {
+            rep.evaluations += 1;
+            rep.count("corpus_fixed_witnesses");
+            match exercise_with_deadline(t) {
+                Ok(None) => {}
+                Ok(Some((op, msg))) => rep.fail(json!({"kind": "panic", "text": t, "what": format!("regression of repaired defect {}: {} panics: {}", f.id, op, msg.chars().take(200).collect::<String>())})),
+                Err(e) => rep.fail(json!({"kind": "hang", "text": t, "what": e})),
+            }
+        }
+    }
     let keys: Vec<String> = hist::KEY_POOL.iter().map(|s| s.to_string()).collect();
     let n = if ctx.thorough { 6000 } else { 400 };
     for i in 0..n {
